@@ -130,8 +130,11 @@ package rules
 // registry) when C16's role code does not find it; callback iterators over <node>.clients / <node>.nodes
 // (forEachClient / forEachChild): collectors and collect sites written with a collecting closure, the edge loop of
 // the matcher behind forEachChild(visit) with the per-edge decision in the closure, lock held at the use sites of a
-// non-escaping closure. Not followed (exit 2, anchors): C14/r16 (clients as a named map type with put/drop/copyTo
-// methods, a topicSub parameter object, Session.updateTopics(func(map))).
+// non-escaping closure. C14/r16 (driver out/mut10.py): put / drop / copyTo methods of a named clients map type are
+// the store / delete / collect primitives at their call sites; the roles of insert/remove are read through the
+// fields of a parameter object (topicSub); the Topics map handed to a function parameter (updateTopics(func(map)))
+// is a change at that call. Still not followed there: the matcher split into collectOnPath / collectAtEnd with the
+// frontier passed as a nested call argument (R-C14-1 ends in an anchor error on that shape).
 //
 // GENUINE DEFECTS found on the tree of the first pass (since fixed in /repo: 8fc741a, 90acb3c; demo out/zz_triage_test.go):
 //   R-C14-6 |(TopicManager).subscribe|all-or-nothing            — out/fix-1.diff
@@ -169,6 +172,7 @@ type c14env struct {
 	roles     *c14roleSet
 	wrappers  map[*types.Func]c14wrapper
 	iterators map[*types.Func]c14iterator // callback iterators over <node>.clients / <node>.nodes
+	prims     map[*types.Func]*c14prim    // put / drop / copyTo methods of a named map type
 }
 
 func c14(c *core.Ctx) string {
@@ -390,6 +394,17 @@ func (e *c14env) findCollectors() {
 	e.collectorNode = map[*types.Func]int{}
 	e.collectorDst = map[*types.Func]int{}
 	e.findIterators()
+	// the copy primitive of a named clients map type: node.clients.copyTo(ans)
+	e.decls(func(f *flow.Func, fd *ast.FuncDecl) {
+		o := e.funcObj(fd)
+		if p, ok := e.mapPrim(o); ok && p.kind == "copy" {
+			if recv := c14recvObj(f, fd); recv != nil && types.Identical(recv.Type(), e.clientsF.Type()) {
+				e.collectors[o] = fd
+				e.collectorNode[o] = -3 // the receiver is the clients map itself
+				e.collectorDst[o] = p.val
+			}
+		}
+	})
 	// a collector written with a callback iterator: node.forEachClient(func(k, v) { ans[k] = v })
 	e.decls(func(f *flow.Func, fd *ast.FuncDecl) {
 		o := e.funcObj(fd)
@@ -519,7 +534,12 @@ func (e *c14env) collects(f *flow.Func, root ast.Node) []c14collect {
 		var node ast.Expr
 		if ni := e.collectorNode[fo]; ni == -1 {
 			node = c14recvOf(f, call)
-		} else if ni < len(call.Args) {
+		} else if ni == -3 {
+			// <node>.clients.copyTo(ans): the node is the owner of the clients map
+			if r := c14recvOf(f, call); r != nil {
+				node, _ = c14fieldRecv(f, r, e.clientsF)
+			}
+		} else if ni >= 0 && ni < len(call.Args) {
 			node = call.Args[ni]
 		}
 		di := e.collectorDst[fo]
@@ -702,9 +722,12 @@ func c14lockEvent(f *flow.Func, st *flow.State, call *ast.CallExpr, callee types
 
 // c14write is one store into the trie.
 type c14write struct {
-	at    ast.Node // the CFG node: *ast.AssignStmt / *ast.IncDecStmt / delete call
+	at    ast.Node // the CFG node: *ast.AssignStmt / *ast.IncDecStmt / delete call / put-drop primitive call
 	field *types.Var
 	what  string
+	store bool     // records an element (else: deletes / other)
+	key   ast.Expr // the map key of an element store or delete
+	val   ast.Expr // the stored value
 }
 
 // trieWrites lists the stores into topicNode.clients / topicNode.nodes below root.
@@ -727,22 +750,47 @@ func (e *c14env) trieWrites(f *flow.Func, root ast.Node) []c14write {
 				l = ast.Unparen(l)
 				if ix, ok := l.(*ast.IndexExpr); ok {
 					if fld := fieldOf(ix.X); fld != nil {
-						out = append(out, c14write{t, fld, "store " + fld.Name() + "[k] = v"})
+						w := c14write{at: t, field: fld, what: "store " + fld.Name() + "[k] = v", store: true, key: ix.Index}
+						if len(t.Lhs) == len(t.Rhs) {
+							for i2, l2 := range t.Lhs {
+								if ast.Unparen(l2) == ast.Expr(ix) {
+									w.val = t.Rhs[i2]
+								}
+							}
+						}
+						out = append(out, w)
 					}
 				} else if fld := fieldOf(l); fld != nil {
-					out = append(out, c14write{t, fld, "assignment to field " + fld.Name()})
+					out = append(out, c14write{at: t, field: fld, what: "assignment to field " + fld.Name()})
 				}
 			}
 		case *ast.IncDecStmt:
 			if ix, ok := ast.Unparen(t.X).(*ast.IndexExpr); ok {
 				if fld := fieldOf(ix.X); fld != nil {
-					out = append(out, c14write{t, fld, "inc/dec of " + fld.Name() + "[k]"})
+					out = append(out, c14write{at: t, field: fld, what: "inc/dec of " + fld.Name() + "[k]"})
 				}
 			}
 		case *ast.CallExpr:
 			if c14isBuiltin(f, t, "delete", "clear") && len(t.Args) >= 1 {
 				if fld := fieldOf(t.Args[0]); fld != nil {
-					out = append(out, c14write{t, fld, "delete from " + fld.Name()})
+					w := c14write{at: t, field: fld, what: "delete from " + fld.Name()}
+					if len(t.Args) == 2 {
+						w.key = t.Args[1]
+					}
+					out = append(out, w)
+				}
+			}
+			// a put / drop primitive of a named map type called on the field: node.clients.put(k, v)
+			if p, fld, _, ok := e.primCall(f, t); ok {
+				switch p.kind {
+				case "put":
+					if p.key < len(t.Args) && p.val < len(t.Args) {
+						out = append(out, c14write{at: t, field: fld, what: "store " + fld.Name() + "[k] = v", store: true, key: t.Args[p.key], val: t.Args[p.val]})
+					}
+				case "drop":
+					if p.key < len(t.Args) {
+						out = append(out, c14write{at: t, field: fld, what: "delete from " + fld.Name(), key: t.Args[p.key]})
+					}
 				}
 			}
 		}
@@ -1339,6 +1387,10 @@ func c14QoS(e *c14env) {
 							rs = r
 							break
 						}
+						if e.collectorNode[fo] == -3 && c14obj(f, r.X) == c14recvObj(f, fd) {
+							rs = r // the method of the named clients map ranges over its receiver
+							break
+						}
 					}
 				}
 				okStore := false
@@ -1504,27 +1556,37 @@ func c14QoS(e *c14env) {
 			if g != f && len(e.sourceCalls(g, g.Body, false)) > 0 {
 				continue
 			}
+			// paramID: the parameter of insert an expression stands for — the parameter itself, or a
+			// field of a parameter object (insert(sub topicSub): sub.clientID, sub.qos, sub.filter)
+			paramID := func(x ast.Expr) types.Object {
+				x = ast.Unparen(x)
+				if sel, ok := x.(*ast.SelectorExpr); ok {
+					if sl := g.Info.Selections[sel]; sl != nil && sl.Kind() == types.FieldVal && standsForParam(g, c14obj(g, sel.X)) != nil {
+						return sl.Obj()
+					}
+					return nil
+				}
+				return standsForParam(g, c14obj(g, x))
+			}
 			for _, w := range e.trieWrites(g, g.Body) {
-				as, ok := w.at.(*ast.AssignStmt)
-				if !ok || w.field != e.clientsF {
+				if !w.store || w.field != e.clientsF || w.key == nil || w.val == nil {
 					continue
 				}
-				for i, l := range as.Lhs {
-					ix, ok := ast.Unparen(l).(*ast.IndexExpr)
-					if !ok {
-						continue
+				n++
+				k, v := paramID(w.key), paramID(w.val)
+				topicID := topicParam
+				if len(src) == 1 && len(src[0].Args) == 1 && topicID == nil {
+					if sel, ok := ast.Unparen(src[0].Args[0]).(*ast.SelectorExpr); ok {
+						if sl := f.Info.Selections[sel]; sl != nil {
+							topicID = sl.Obj()
+						}
 					}
-					if _, isClients := c14fieldRecv(g, ix.X, e.clientsF); !isClients || len(as.Lhs) != len(as.Rhs) {
-						continue
-					}
-					n++
-					k, v := standsForParam(g, c14obj(g, ix.Index)), standsForParam(g, c14obj(g, as.Rhs[i]))
-					okK := k != nil && k != topicParam && types.Identical(k.Type().Underlying(), types.Typ[types.String])
-					okV := v != nil && c14isByte(v.Type())
-					c.Check(okK && okV, "R-C14-5", cons+"|stores the caller's qos under the caller's client id", pos(c, as),
-						"clients[<client id parameter>] = <qos parameter>",
-						"insert does not store its qos parameter under its client-id parameter: the subscription is recorded for another key or with another QoS than requested")
 				}
+				okK := k != nil && k != topicID && types.Identical(k.Type().Underlying(), types.Typ[types.String])
+				okV := v != nil && c14isByte(v.Type())
+				c.Check(okK && okV, "R-C14-5", cons+"|stores the caller's qos under the caller's client id", pos(c, w.at),
+					"clients[<client id parameter>] = <qos parameter>",
+					"insert does not store its qos parameter under its client-id parameter: the subscription is recorded for another key or with another QoS than requested")
 			}
 		}
 		c.RequireCount("R-C14-5", "clients stores in insert", n, 1)
@@ -1537,7 +1599,7 @@ func c14QoS(e *c14env) {
 		ins := c14callsToFn(f, f.Body, true, e.role("insert").obj)
 		c.RequireCount("R-C14-5", "insert call sites in subscribe", len(ins), 1)
 		for _, call := range ins {
-			if len(call.Args) < 3 {
+			if len(c14flattenArgs(call.Args)) < 3 {
 				c.Undecide("R-C14-5", cons+"|QoS paired with its filter", pos(c, call), "insert does not take (filter, qos, client)")
 				continue
 			}
@@ -1562,7 +1624,8 @@ func c14QoS(e *c14env) {
 					return isIx && c14obj(f, ix.X) == topicsP && it.key != nil && c14obj(f, ix.Index) == it.key
 				}
 				filterOK, qosOK, clientOK := false, false, false
-				for _, a := range call.Args {
+				args := c14flattenArgs(call.Args)
+				for _, a := range args {
 					a = ast.Unparen(a)
 					switch {
 					case isElem(a):
@@ -1643,8 +1706,8 @@ func c14InsertAlways(e *c14env, f *flow.Func, cons string) {
 			continue
 		}
 		for _, w := range e.trieWrites(g, g.Body) {
-			if as, ok := w.at.(*ast.AssignStmt); ok && w.field == e.clientsF {
-				stores[as] = true
+			if w.store && w.field == e.clientsF {
+				stores[w.at] = true
 				storesIn[g.Body] = true
 			}
 		}
@@ -1685,6 +1748,11 @@ func c14InsertAlways(e *c14env, f *flow.Func, cons string) {
 		OnNode: func(st *flow.State, n ast.Node) {
 			if stores[n] {
 				st.Set(ev, flow.True)
+			}
+		},
+		OnCall: func(st *flow.State, call *ast.CallExpr, callee types.Object, d bool) {
+			if stores[call] {
+				st.Set(ev, flow.True) // a put primitive of the clients map
 			}
 		}})
 	if res == nil {
@@ -1750,4 +1818,28 @@ func c14InsertAlways(e *c14env, f *flow.Func, cons string) {
 			}
 			return append([]string{"return at " + pos(c, bad.Return)}, witness(bad.State)...)
 		}()...)
+}
+
+// c14flattenArgs replaces a composite literal argument (a parameter object such as
+// topicSub{clientID: id, filter: t, qos: q}) by the values of its fields.
+func c14flattenArgs(args []ast.Expr) []ast.Expr {
+	var out []ast.Expr
+	for _, a := range args {
+		x := ast.Unparen(a)
+		if u, ok := x.(*ast.UnaryExpr); ok {
+			x = ast.Unparen(u.X)
+		}
+		if cl, ok := x.(*ast.CompositeLit); ok {
+			for _, el := range cl.Elts {
+				if kv, ok := el.(*ast.KeyValueExpr); ok {
+					out = append(out, kv.Value)
+				} else {
+					out = append(out, el)
+				}
+			}
+			continue
+		}
+		out = append(out, a)
+	}
+	return out
 }
